@@ -60,10 +60,81 @@ def run(rep, tier, seed):
             b3 = client_predicate(tr3) or bad
             rep.violation(bad[0], b3[1], {"kind": "client-story", "story": connfamily.story_text(small),
                                           "callbacks": [(l, p, o) for l, p, o in tr3.steps if l != "silent"][-30:], "user_stops": [bool(x) for x in tr3.user_stops]})
+    for ending in ("request", "eof", "reset", "bad-frame"):
+        calls, errs = reconnect_from_hook_probe(ending)
+        want = [("first", ending == "request"), ("second", False)]
+        rep.case(("reconnect-from-hook", ending), True, sample={"reconnect_from_hook": ending, "callbacks": calls, "errors": errs})
+        rep.bump("probe:reconnect-from-hook")
+        if calls != want or errs:
+            rep.violation("C07/callback-of-next-session", f"session ended by {ending}; its stop callback reconnects at once with a callback for the new session, which is "
+                          f"established and then reset: callbacks invoked {calls}{' errors ' + str(errs) if errs else ''}, expected {want}",
+                          {"kind": "reconnect-from-hook", "ending": ending})
+
+
+def reconnect_from_hook_probe(ending):
+    """The application's stop callback reconnects at once (as ReconnectLogic does after an unexpected drop), handing over the
+    callback for the NEW session; that session is established and ends: its callback fires exactly once too."""
+    import asyncio
+    from vlib import simnet
+
+    async def go(loop):
+        from aioesphomeapi import api_pb2 as pb
+        from aioesphomeapi.client import APIClient
+        net = simnet.Net(loop)
+        calls, errs = [], []
+        with net.patched():
+            cli = APIClient("10.0.0.1", 6053, None)
+
+            async def on_stop2(expected):
+                calls.append(("second", bool(expected)))
+
+            async def on_stop1(expected):
+                calls.append(("first", bool(expected)))
+                try:
+                    await cli.start_connection(on_stop=on_stop2)
+                except Exception as e:  # noqa: BLE001
+                    errs.append(type(e).__name__ + ": " + str(e)[:60])
+
+            async def establish():
+                task = asyncio.ensure_future(cli.finish_connection(login=False))
+                await simnet.drain(loop)
+                tr = net.transports[-1]
+                tr.feed(simnet.plain_msg(pb.HelloResponse(api_version_major=1, api_version_minor=10, name="dev")))
+                await simnet.drain(loop)
+                await task
+                return tr
+            await cli.start_connection(on_stop=on_stop1)
+            tr = await establish()
+            if ending == "request":
+                tr.feed(simnet.plain_msg(pb.DisconnectRequest()))
+            elif ending == "eof":
+                tr.feed_eof()
+            elif ending == "reset":
+                tr.lose(ConnectionResetError("reset"))
+            else:
+                tr.feed(b"\x01\x00\x00")
+            await simnet.drain(loop)
+            if not errs and len(net.transports) >= 1 and calls:
+                try:
+                    tr2 = await establish()
+                    tr2.lose(ConnectionResetError("reset"))
+                    await simnet.drain(loop)
+                except Exception as e:  # noqa: BLE001
+                    errs.append("second session: " + type(e).__name__ + ": " + str(e)[:60])
+            for t in asyncio.all_tasks(loop):
+                if t is not asyncio.current_task():
+                    t.cancel()
+        return calls, errs
+    return simnet.run(go)
 
 
 def replay(path):
     d = json.loads(open(path).read())["replay"]
+    if d.get("kind") == "reconnect-from-hook":
+        from vlib import common
+        common.setup_impl_path()
+        print(reconnect_from_hook_probe(d["ending"]))
+        return 0
     if d.get("kind") == "client-story":
         from checks import c19
         from vlib import common
